@@ -127,6 +127,11 @@ func (c *WhipClient) Close() error {
 	}
 	if connection != nil {
 		id := connection.Id()
+		// make sure that a delayed push doesn't announce the
+		// connection after its removal
+		connection.mu.Lock()
+		connection.closed = true
+		connection.mu.Unlock()
 		connection.pc.OnICEConnectionStateChange(nil)
 		connection.pc.Close()
 		for _, c := range g.GetClients(c) {
